@@ -4,9 +4,47 @@
 // float32 pixel/DCT kernels (see package transforms).
 package transforms32
 
+// Origin correctness of the float32 ("alternative") gray conversion, as in package transforms: element (a, b) of the buffer is
+// the luminance formula applied to the image pixel at (Min.X + b, Min.Y + a). imgW/imgH/bminx/bminy: ghost Bounds() attributes.
+//@ spec lumAt32(img, x, y) = float32(0.299*float64(uint32(gfun("pixR", img, x, y))/257) + 0.587*float64(uint32(gfun("pixG", img, x, y))/257) + 0.114*float64(uint32(gfun("pixB", img, x, y))/256))
+
 //@ func ImageToGray
-//@   trusted floating-point pixel conversion; only the frame is used
+//@   props C19 C04
+//@   requires img != nil && pixels != nil
+//@   requires [C19] imgW(img) == imgH(img) ==> (imgW(img) == 64 && len(*pixels) >= 4096) || (imgW(img) == 256 && len(*pixels) >= 65536)
 //@   modifies mem(*pixels)
+//@   ensures [C19] imgW(img) == 64 && imgH(img) == 64 && !is(img, "*image.YCbCr") ==> forall a int, b int :: 0 <= a && a < 64 && 0 <= b && b < 64 ==> same((*pixels)[a*64+b], lumAt32(img, gconst("bminx", img)+b, gconst("bminy", img)+a))
+//@   ensures [C19] imgW(img) == 256 && imgH(img) == 256 && !is(img, "*image.YCbCr") ==> forall a int, b int :: 0 <= a && a < 256 && 0 <= b && b < 256 ==> same((*pixels)[a*256+b], lumAt32(img, gconst("bminx", img)+b, gconst("bminy", img)+a))
+
+//@ dep callback imagehash/transforms32.YCbCrToGray
+//@   names img pixels
+//@   modifies mem(pixels)
+
+//@ func imageToGrayDefault
+//@   props C19
+//@   requires img != nil && (imgW(img) == 64 || imgW(img) == 256) && len(pixels) >= imgW(img)*imgW(img)
+//@   modifies mem(pixels)
+//@   ensures [C19] imgW(img) == 64 ==> forall a int, b int :: 0 <= a && a < 64 && 0 <= b && b < 64 ==> same(pixels[a*64+b], lumAt32(img, gconst("bminx", img)+b, gconst("bminy", img)+a))
+//@   ensures [C19] imgW(img) == 256 ==> forall a int, b int :: 0 <= a && a < 256 && 0 <= b && b < 256 ==> same(pixels[a*256+b], lumAt32(img, gconst("bminx", img)+b, gconst("bminy", img)+a))
+//@   loop 0 invariant 0 <= i && i <= s && s == imgW(img)
+//@   loop 0 invariant [C19] s == 64 ==> forall a int, b int :: 0 <= a && a < i && 0 <= b && b < 64 ==> same(pixels[a*64+b], lumAt32(img, gconst("bminx", img)+b, gconst("bminy", img)+a))
+//@   loop 0 invariant [C19] s == 256 ==> forall a int, b int :: 0 <= a && a < i && 0 <= b && b < 256 ==> same(pixels[a*256+b], lumAt32(img, gconst("bminx", img)+b, gconst("bminy", img)+a))
+//@   loop 1 invariant 0 <= i && i < s && 0 <= j && j <= s && s == imgW(img)
+//@   loop 1 invariant [C19] s == 64 ==> forall a int, b int :: 0 <= a && 0 <= b && b < 64 && (a < i || (a == i && b < j)) ==> same(pixels[a*64+b], lumAt32(img, gconst("bminx", img)+b, gconst("bminy", img)+a))
+//@   loop 1 invariant [C19] s == 256 ==> forall a int, b int :: 0 <= a && 0 <= b && b < 256 && (a < i || (a == i && b < j)) ==> same(pixels[a*256+b], lumAt32(img, gconst("bminx", img)+b, gconst("bminy", img)+a))
+
+//@ func rgbaToGray
+//@   props C19
+//@   requires img != nil && (img.Rect.Max.X - img.Rect.Min.X == 64 || img.Rect.Max.X - img.Rect.Min.X == 256) && len(pixels) >= (img.Rect.Max.X - img.Rect.Min.X)*(img.Rect.Max.X - img.Rect.Min.X)
+//@   modifies mem(pixels)
+//@   ensures [C19] img.Rect.Max.X - img.Rect.Min.X == 64 ==> forall a int, b int :: 0 <= a && a < 64 && 0 <= b && b < 64 ==> same(pixels[a*64+b], lumAt32(img, img.Rect.Min.X+b, img.Rect.Min.Y+a))
+//@   ensures [C19] img.Rect.Max.X - img.Rect.Min.X == 256 ==> forall a int, b int :: 0 <= a && a < 256 && 0 <= b && b < 256 ==> same(pixels[a*256+b], lumAt32(img, img.Rect.Min.X+b, img.Rect.Min.Y+a))
+//@   loop 0 invariant 0 <= i && i <= s && s == img.Rect.Max.X - img.Rect.Min.X
+//@   loop 0 invariant [C19] s == 64 ==> forall a int, b int :: 0 <= a && a < i && 0 <= b && b < 64 ==> same(pixels[a*64+b], lumAt32(img, img.Rect.Min.X+b, img.Rect.Min.Y+a))
+//@   loop 0 invariant [C19] s == 256 ==> forall a int, b int :: 0 <= a && a < i && 0 <= b && b < 256 ==> same(pixels[a*256+b], lumAt32(img, img.Rect.Min.X+b, img.Rect.Min.Y+a))
+//@   loop 1 invariant 0 <= i && i < s && 0 <= j && j <= s && s == img.Rect.Max.X - img.Rect.Min.X
+//@   loop 1 invariant [C19] s == 64 ==> forall a int, b int :: 0 <= a && 0 <= b && b < 64 && (a < i || (a == i && b < j)) ==> same(pixels[a*64+b], lumAt32(img, img.Rect.Min.X+b, img.Rect.Min.Y+a))
+//@   loop 1 invariant [C19] s == 256 ==> forall a int, b int :: 0 <= a && 0 <= b && b < 256 && (a < i || (a == i && b < j)) ==> same(pixels[a*256+b], lumAt32(img, img.Rect.Min.X+b, img.Rect.Min.Y+a))
 
 //@ func DCT2DHash64
 //@   trusted floating-point DCT; only the frame is used
